@@ -64,6 +64,7 @@ class ScriptedPeer(object):
         self.closed = False
         self.stalled = None
         self.tag_replies = tag_replies
+        self.push_after_ehlo = None
         self.after_transaction = None  # callable(peer) -> True: push a 421 and close after a message (C19)
 
     # ---- io helpers
@@ -183,6 +184,8 @@ class ScriptedPeer(object):
                 exts.extend(getattr(self, 'extra_exts', []))
                 self._reply('ehlo', 'ehlo', None, multi=exts)
                 self.cur = None
+                if self.push_after_ehlo:
+                    self._send(self.push_after_ehlo)       # unsolicited bytes (e.g. the start of a 421 line)
             elif word == b'HELO':
                 self._reply('helo', 'helo', 'mx.test')
                 self.cur = None
